@@ -1021,6 +1021,14 @@ def fam_tok(prop, tier):
              "run(try_join_async! { gate(0, 1, Ok::<u8, u8>(a)) ~=> |x: u8| { *cnt_ref += 1; core::future::ready(Ok::<u8, u8>(x)) } }, 1).0",
              "Option<Result<u8, u8>>", "r == Some(Ok(a))"),
         ]
+        # an initial value that is a DEREFERENCE of a borrowed move-only value stays a place expression: `(*r).len()` reborrows,
+        # `{ *r }.len()` would move out of the borrow
+        extra += [
+            ("deref_initial_reborrows", "    let tok = Tok::new(a);\n    let tr = &tok;\n    let bx = vec![a, 2u8];\n    let br = &bx;\n",
+             "join! { *br .. len(), *tr .. 0.wrapping_add(1), *br .. first() |> |x: &u8| *x }", "(usize, u8, Option<u8>)", "r == (2, a.wrapping_add(1), Some(a)) && tok.0 == a && bx.len() == 2"),
+            ("deref_initial_mut_reborrows", "    let mut bx = vec![a, 2u8];\n    let bm = &mut bx;\n",
+             "{ let r = try_join! { Some(()) |> |_| 1u8, { (*bm).push(4); Some(2u8) } }; (r, (*bm).len()) }", "(Option<(u8, u8)>, usize)", "r == (Some((1, 2)), 3)"),
+        ]
         extra += [
             ("wrapper_scope_borrows_mut", "    let mut seen = 0u8;\n",
              "join! { Some(Some(a)) |> >>> |> |v: u8| { seen = seen.wrapping_add(1); v } <<< }",
